@@ -7,7 +7,7 @@
    definitions on the implementation, in all argument modes.
    permute is refuted on the unchanged tree (and pinned by test_permute_1): see C24_permute_refuted. *)
 From Coq Require Import List ZArith Bool Arith Permutation.
-From PV Require Import Model.Term Model.Subst Model.Unify Model.FD Model.State Model.Engine Proofs.EngineProofs Proofs.UnifyProofs Proofs.SemProofs Proofs.MonoProofs Proofs.RelSound Gen.RelDefs.
+From PV Require Import Model.Term Model.Subst Model.Unify Model.FD Model.State Model.Engine Proofs.EngineProofs Proofs.UnifyProofs Proofs.SemProofs Proofs.MonoProofs Proofs.RelSound Gen.RelDefs Proofs.DenProofs Proofs.RelSound2.
 Import ListNotations.
 
 Definition q0 := TVar 100 false.
@@ -162,6 +162,39 @@ Theorem C24_member_sound_lists : forall x xs, MemberV x (list_term xs) -> In x x
 Proof. exact MemberV_list. Qed.
 
 Check C24_append_backward : forall ls, In ls scope4 -> is_bag (answers [GCall rel_append [q0; q1; L ls]]) (splits ls) = true.
+(* UNBOUNDED soundness of the relations that use disequality, on the translated definitions: every valuation
+   that solves a delivered answer - its substitution AND its stored disequalities - satisfies the
+   inductive reading of the relation, for arbitrary terms in every argument position and every mode.
+     RemberV x l o  : o is l without its first element equal to x (l itself when there is none)
+     Member1V x l   : x occurs in l (reached at its first occurrence)
+     DistinctV l    : the elements of l are pairwise different
+     PermuteV a b   : the relation as defined (each element of a removed once from b if present;
+                      not "is a permutation": the known finding above) *)
+Theorem C24_rember_sound : forall kk u n k st x l o a rest u' th,
+  next lib_defs kk u (start lib_defs n (CCall k rel_rember [x; l; o]) st) = NAnswer a rest u' -> Mst th a ->
+  RemberV (app th x) (app th l) (app th o).
+Proof. exact rember_sound. Qed.
+Theorem C24_member1_sound : forall kk u n k st x l a rest u' th,
+  next lib_defs kk u (start lib_defs n (CCall k rel_member1 [x; l]) st) = NAnswer a rest u' -> Mst th a ->
+  Member1V (app th x) (app th l).
+Proof. exact member1_sound. Qed.
+Theorem C24_distinct_sound : forall kk u n k st l a rest u' th,
+  next lib_defs kk u (start lib_defs n (CCall k rel_distinct [l]) st) = NAnswer a rest u' -> Mst th a ->
+  DistinctV (app th l).
+Proof. exact distinct_sound. Qed.
+Theorem C24_permute_sound : forall kk u n k st x y a rest u' th,
+  next lib_defs kk u (start lib_defs n (CCall k rel_permute [x; y]) st) = NAnswer a rest u' -> Mst th a ->
+  PermuteV (app th x) (app th y).
+Proof. exact permute_sound. Qed.
+(* read on lists *)
+Theorem C24_rember_lists : forall x l o, RemberV x (list_term l) o ->
+  exists l', o = list_term l' /\ ((exists l1 l2, l = l1 ++ x :: l2 /\ ~ In x l1 /\ l' = l1 ++ l2) \/ (~ In x l /\ l' = l)).
+Proof. exact RemberV_list. Qed.
+Theorem C24_distinct_lists : forall xs, DistinctV (list_term xs) -> NoDup xs.
+Proof. intros xs H. exact (DistinctV_nodup (length xs) xs (le_n _) H). Qed.
+Theorem C24_member1_lists : forall x xs, Member1V x (list_term xs) -> In x xs.
+Proof. exact Member1V_list. Qed.
+
 Print Assumptions C24_append_forward.
 Print Assumptions C24_append_backward.
 Print Assumptions C24_member_enumerates.
@@ -175,3 +208,10 @@ Print Assumptions C24_append_sound.
 Print Assumptions C24_append_sound_lists.
 Print Assumptions C24_member_sound.
 Print Assumptions C24_member_sound_lists.
+Print Assumptions C24_rember_sound.
+Print Assumptions C24_member1_sound.
+Print Assumptions C24_distinct_sound.
+Print Assumptions C24_permute_sound.
+Print Assumptions C24_rember_lists.
+Print Assumptions C24_distinct_lists.
+Print Assumptions C24_member1_lists.
